@@ -862,3 +862,143 @@ class aggregate_assemble_count(aggregate_assemble):
 # (STDEV: the assembled value involves a second filtered pass and a real-valued power; the exit
 # obligation does not discharge reliably, so that aggregator's assembly stays bounded; its body is
 # under the aggregator contract `aggregate.<locals>.stdev_func`.)
+
+
+# =================================================================== Table.window (C13)
+WIN = 'serif.table.Table.window'
+WIN_CGV = WIN + '.<locals>.compute_group_values'
+represent(WIN, partition_index='symdict', row_keys='symkeylist')
+represent(WIN_CGV, out='symmap')
+from contracts.specs import kat, mhas, mget  # noqa: E402
+
+
+@loop_invariant(WIN, 'for i in range(nrows)', havoc={'partition_index': 'symdict', 'row_keys': 'symkeylist'},
+                ghost={'pos': 'intarr', 'gidx': 'keyintarr'}, ghost_init=agg_ghost_init, ghost_step=agg_ghost_step)
+def win_partition_inv(k, over_data, partition_index, pos, gidx, row_keys):
+    """The partition invariant of aggregate, plus: row_keys[e] is the key tuple of row e."""
+    return (agg_partition_inv(k, over_data, partition_index, pos, gidx)
+            and forall('i', lambda e: implies(0 <= e < k, kat(row_keys, e) == _agg_key(over_data, e))))
+
+
+@contract(WIN + '.<locals>.uniquify', props=[])
+class win_uniquify:
+    """Output-name uniquification (C18: bounded): an opaque string at the value level."""
+    nested = (WIN, 'uniquify', 0)
+    params = {'name': 'any'}
+    trusted = True
+    result_sort = 'str'
+
+
+@contract(WIN + '.<locals>.sanitize', props=[])
+class win_sanitize:
+    nested = (WIN, 'sanitize', 0)
+    params = {'col': 'opaque', 'suffix': 'any'}
+    trusted = True
+    result_sort = 'str'
+
+
+@contract(WIN, props=['C13'], variant='partition-1key-sum')
+class window_partition:
+    """C13 (partition loop, one key vector, one summed column; any number of rows): the index maps
+    every distinct key to the ascending list of its rows and `row_keys[i]` is row i's key
+    (invariant `win_partition_inv`)."""
+    params = {'self': 'table1', 'over': 'dvector', 'sum_over': 'dvector', 'mean_over': 'none', 'min_over': 'none',
+              'max_over': 'none', 'stdev_over': 'none', 'count_over': 'none', 'apply': 'none'}
+    may_raise = [SerifValueError, ValueError]
+    stop_after = ('win_partition_inv',)
+    quant_prune = False
+
+    def requires(self, over, sum_over):
+        return S.rect(self)
+
+
+def _bucket_vals(data, d, q):
+    """the values of the rows in the bucket of key q, in bucket (= row) order"""
+    return [S.at(data, bat(d, q, p)) for p in range(blen(d, q))]
+
+
+@loop_invariant(WIN_CGV, 'for key, rows in group_items', havoc={'out': 'symmap'})
+def win_cgv_inv(k, out, partition_index, gidx, data, fn, any_int_G):
+    """After k groups: `out` holds exactly the first k keys (insertion order), and - for the
+    arbitrary but fixed group G - the value under the G-th key is fn applied to the values of the
+    rows of that key's bucket."""
+    d = partition_index
+    G = any_int_G
+    dom = (forall('i', lambda g: implies(0 <= g < k, mhas(out, dord(d, g))))
+           and forall('k', lambda q: implies(mhas(out, q), 0 <= sel(gidx, q) < k and dord(d, sel(gidx, q)) == q)))
+    # explicit case split (a path split, not a disjunction inside one formula): the reduction over
+    # the group's values is an uninterpreted function of a sequence *class*, and the class of the
+    # values just computed is identified with the class of G's bucket only where G is known to be
+    # the group just processed
+    if G >= 0 and G == k - 1:
+        val = S.same(mget(out, dord(d, k - 1)), fn(_bucket_vals(data, d, dord(d, k - 1))))
+    else:
+        val = implies(0 <= G < k - 1, S.same(mget(out, dord(d, G)), fn(_bucket_vals(data, d, dord(d, G)))))
+    return dom and val
+
+
+@exit_assert(WIN)
+def win_exit(result, any_int_R, any_int_G=None, partition_index=None, gidx=None, over_data=None, sum_over=None,
+             mean_over=None, min_over=None, max_over=None, count_over=None, stdev_over=None, nrows=None):
+    """At the return of window (one key vector, one aggregated column): as many rows as the input,
+    the key column reproduced unchanged, and row R (arbitrary) holds the aggregator's spec of the
+    values of the rows of R's group - the value aggregate computes for that group (`agg_exit` uses
+    the same spec functions).  (G is the arbitrary group index of `win_cgv_inv`; the statement is
+    proved for the case G = rank of R's key, which is the general case since both are arbitrary.)"""
+    col = _agg_column(sum_over, mean_over, min_over, max_over, count_over, stdev_over)
+    if partition_index is None or col is None or any_int_G is None:
+        return True
+    d = partition_index
+    R = any_int_R
+    if not (len(result._underlying) == 2 and len(result._underlying[0]._underlying) == nrows
+            and len(result._underlying[1]._underlying) == nrows):
+        return False
+    if not (0 <= R < nrows):
+        return True
+    if not S.same(S.at(result._underlying[0]._underlying, R), S.at(over_data[0], R)):
+        return False
+    kR = _agg_key(over_data, R)
+    if not (any_int_G == sel(gidx, kR)):
+        return True
+    return S.same(S.at(result._underlying[1]._underlying, R),
+                  _agg_expected(_bucket_vals(col._underlying, d, kR), sum_over, mean_over, min_over, max_over, count_over, stdev_over))
+
+
+@contract(WIN, props=['C13'], variant='assemble-1key-sum')
+class window_assemble(window_partition):
+    """C13 (group values and expansion, one key vector, one summed column; any number of rows):
+    with the partition invariant at the loop exit, `compute_group_values` fills the group map under
+    the invariant `win_cgv_inv`, and the returned table has the input's row count, the key column
+    unchanged and, in every row, the SUM spec of the row's group (exit assertion `win_exit`, proved
+    for an arbitrary row)."""
+    stop_after = ()
+    assume_loops = ('win_partition_inv',)
+    generics = ('any_int_G',)
+
+
+@contract(WIN, props=['C13'], variant='assemble-1key-mean')
+class window_assemble_mean(window_assemble):
+    """C13 (group values and expansion, MEAN)."""
+    params = _agg_params('mean')
+    tier = 'thorough'
+
+
+@contract(WIN, props=['C13'], variant='assemble-1key-min')
+class window_assemble_min(window_assemble):
+    """C13 (group values and expansion, MIN)."""
+    params = _agg_params('min')
+    tier = 'thorough'
+
+
+@contract(WIN, props=['C13'], variant='assemble-1key-max')
+class window_assemble_max(window_assemble):
+    """C13 (group values and expansion, MAX)."""
+    params = _agg_params('max')
+    tier = 'thorough'
+
+
+@contract(WIN, props=['C13'], variant='assemble-1key-count')
+class window_assemble_count(window_assemble):
+    """C13 (group values and expansion, COUNT)."""
+    params = _agg_params('count')
+    tier = 'thorough'
